@@ -2,7 +2,7 @@
 # tools/mutant.sh <patch-file> <ID> [<ID>...]  - apply a patch to a scratch copy of /repo (outside /repo and /verif),
 # run the quick tier of the given checks against it (VERIF_REPO), print the verdicts, remove the copy.
 set -u
-patch="$1"; shift
+patch=$(readlink -f "$1"); shift
 d=$(mktemp -d /tmp/vf-mut-XXXXXX)
 cp -a /repo/. "$d/" 2>/dev/null
 rm -rf "$d/_build"
